@@ -47,7 +47,7 @@ def _file(origin, parts, note=None, head=None):
         lines.append(note)
     lines.append(head or HEAD)
     for text, src, _ in parts:
-        lines.append("/-\n" + src.replace("-/", "- /") + "\n-/")
+        lines.append("/-\n" + src.replace("-/", "- /").replace("/-", "/ -") + "\n-/")
         lines.append(text)
     lines.append("end PyGql.Generated.Tr")
     return "\n".join(lines) + "\n"
@@ -203,6 +203,47 @@ def tr_c01(ctx):
     return out
 
 
+# ---- schema/scalars.py: coerce_int (C07) ------------------------------------------------------------------------
+
+def _module_int(src, name):
+    for n in ast.parse(src).body:
+        if isinstance(n, ast.Assign) and len(n.targets) == 1 and isinstance(n.targets[0], ast.Name) and n.targets[0].id == name:
+            try:
+                v = ast.literal_eval(n.value)
+            except Exception:
+                break
+            if isinstance(v, int) and not isinstance(v, bool):
+                return v
+    raise Untranslatable("module constant %s is not an integer literal" % name)
+
+
+def tr_scalars(ctx):
+    src = SRC("schema/scalars.py")
+    JV, F = OP("JV"), OP("F")
+    consts = {k: ("(%d : Int)" % _module_int(src, k), INT) for k in ("MIN_INT", "MAX_INT")}
+    coerce_int = py2lean.translate_function(
+        src, "coerce_int", "coerce_int", params={"maybe_int": JV}, ret=INT,
+        binders="{JV F : Type} (isInt isFloat isStr isNone strIsEmpty : JV → Bool) (py_int : JV → Except String Int) "
+                "(int_ne : Int → JV → Bool) (py_int10 : JV → Except String Int) (py_float : JV → Except String F) "
+                "(is_integer : F → Bool) (int_of_float : F → Except String Int) (maybe_int : JV)",
+        isinstance_map={"int": "isInt", "float": "isFloat", "str": "isStr"},
+        externals={"int": [("py_int", [JV], INT, True), ("py_int10", [JV, INT], INT, True), ("int_of_float", [F], INT, True)],
+                   "float": [("py_float", [JV], F, True)],
+                   "float_value.is_integer": Ext("is_integer float_value", BOOL)},
+        whole={"maybe_int is None": ("(isNone maybe_int)", BOOL),
+               "not maybe_int": ("(strIsEmpty maybe_int)", BOOL),
+               "numeric != maybe_int": ("(int_ne numeric maybe_int)", BOOL)},
+        consts=consts)
+    note = ("/- `coerce_int` over a dynamically typed argument: `isinstance(x, int / float / str)`, `x is None`, `not x` (on a str),\n"
+            "   `int(x)`, `int(x, 10)` (the base is passed and ignored by the reading `py_int10`), `float(x)`, `f.is_integer()`, `int(f)`\n"
+            "   and `n != x` are parameters (the partial ones raise by class NAME); MIN_INT / MAX_INT are the module's literals. -/")
+    text = coerce_int[0].replace("(py_int10 maybe_int (10 : Int))", "(py_int10 maybe_int)")
+    if text == coerce_int[0]:
+        raise Untranslatable("int(maybe_int, 10) not found in coerce_int")
+    return {"PyGqlModel/Generated/TrScalars.lean":
+            _file("src/py_gql/schema/scalars.py (coerce_int)", [(text, coerce_int[1], coerce_int[2])], note)}
+
+
 EXTRA = {
     "C01": tr_c01,
     "C10": tr_index_to_loc,
@@ -211,6 +252,7 @@ EXTRA = {
     "C19": tr_collect,
     "C06": tr_overlap,
     "C02": tr_block_string,
+    "C07": tr_scalars,
 }
 
 GENERATED = {
@@ -221,4 +263,5 @@ GENERATED = {
     "C19": ["PyGqlModel/Generated/TrCollect.lean"],
     "C06": ["PyGqlModel/Generated/TrOverlap.lean"],
     "C02": ["PyGqlModel/Generated/TrBlockString.lean"],
+    "C07": ["PyGqlModel/Generated/TrScalars.lean"],
 }
